@@ -6,6 +6,7 @@ class C13(core.Prop):
     id = "C13"
     drivers = [wfgen.DRIVER]
     max_workers = 6
+    ready = True
     technique = ("property-based testing (Hypothesis): random DAGs built through the API and through the JSON / DAX loaders, run on a "
                  "sharing-free platform; start and completion signals compared with the dates the dependency rule implies (closed forms)")
     sizes = {"quick": 800, "thorough": 40000}
